@@ -31,7 +31,7 @@ for prop in ALL:
         "engine": m.get("engine", "vcheck"),
         "level_claimed": {"category": plan.get("level", "proof"), "text": m["text"], "design_ref": f"DESIGN.md section 4, {prop}"},
         "level_note": m["note"],
-        "technique": m["technique"],
+        "technique": m["technique"] + ("; hand-derived witness tests (" + ", ".join(sorted({w["src"] for w in plan["witnesses"]})) + ") replay a failed obligation on the real crate and, where a changed function leaves the verified subset (exit 2 otherwise), confirm a violation by a concrete failing run -- a passing witness decides nothing" if plan.get("witnesses") else ""),
     })
 man = {
     "version": 1,
